@@ -814,7 +814,14 @@ func (w *redisWorld) Deadline() time.Time {
 // Draining: once every fault has fired the scheduler turns fair, so that liveness is judged on a schedule that does
 // not starve anybody. A scenario whose point is an unfair schedule without any fault keeps its strategy (the driver's
 // final drain is fair in any case).
-func (w *redisWorld) Draining() bool { return w.allFaultsFired() && !w.sc.KeepStrategy }
+func (w *redisWorld) Draining() bool {
+	if w.sc.KeepStrategy || (len(w.sc.Faults) == 0 && w.sc.Sched%2 == 0) {
+		// (half of the fault-free scenarios, by their schedule seed, keep their strategy too: otherwise a profile
+		// without faults would only ever see the uniform scheduler)
+		return false
+	}
+	return w.allFaultsFired()
+}
 
 // waitSites: where tasks that wait for a request to complete are blocked (stable signature part).
 func (w *redisWorld) waitSites() []string {
